@@ -70,7 +70,9 @@ fn cause_matches(e: &StunParseError, c: &Cause) -> bool {
         (StunParseError::NotStun, Cause::NotStun) => true,
         (StunParseError::Truncated { expected, actual }, Cause::ShortHeader { expected: e2, actual: a2 }) => expected == e2 && actual == a2,
         (StunParseError::Truncated { expected, actual }, Cause::ShortBody { expected: e2, actual: a2 }) => expected == e2 && actual == a2,
-        (StunParseError::Truncated { expected, actual }, Cause::AttrTruncated) => expected > actual,
+        // attribute-level truncation: the variant, expected > actual, and - when the cut attribute's
+        // header is complete - the available size, which is the buffer length
+        (StunParseError::Truncated { expected, actual }, Cause::AttrTruncated { available }) => expected > actual && available.map_or(true, |a| a == *actual),
         (StunParseError::TooLarge { .. }, Cause::Excess { .. }) => true,
         (StunParseError::DataMismatch, Cause::Excess { .. }) => true,
         (StunParseError::InvalidAttributeData, Cause::Excess { .. }) => true,
@@ -206,6 +208,52 @@ pub fn compare_accepted(msg: &Message, bytes: &[u8], r: &RefMsg, sigp: &str, mod
             show(&got)
         );
     }
+    // typed lookup: attribute::<T>() is the typed reading of the FIRST attribute of T's type that
+    // iteration shows (its value or its decode error), MissingAttribute when there is none
+    for kind in crate::refattrs::ALL_KINDS {
+        let first = got.iter().find(|a| a.get_type().value() == kind.code());
+        let via_msg = guard(|| crate::refattrs::lib_msg_attribute(kind, msg)).map_err(|p| Fail::new(&sig("panic"), format!("attribute::<{:?}>() panicked: {}", kind, p)))?;
+        match first {
+            None => {
+                let hidden_in_buffer = mode == Exposure::Faithful && r.attrs.iter().any(|a| a.ty == kind.code());
+                ensure!(
+                    matches!(via_msg, Err(StunParseError::MissingAttribute(_))) || (hidden_in_buffer && via_msg.is_ok()),
+                    &sig("lookup"),
+                    "attribute::<{:?}>() gives {} although iteration shows no attribute of that type [{}]",
+                    kind,
+                    match &via_msg {
+                        Ok(_) => "a value".to_string(),
+                        Err(e) => err_name(e),
+                    },
+                    show(&got)
+                );
+            }
+            Some(raw) => {
+                let direct = guard(|| crate::refattrs::lib_from_raw(kind, raw)).map_err(|p| Fail::new(&sig("panic"), format!("{:?}::from_raw panicked: {}", kind, p)))?;
+                let same = match (&via_msg, &direct) {
+                    (Ok(a), Ok(b)) => a.fields(tid) == b.fields(tid),
+                    (Err(a), Err(b)) => err_name(a) == err_name(b),
+                    _ => false,
+                };
+                ensure!(
+                    same,
+                    &sig("lookup"),
+                    "attribute::<{:?}>() gives {} but the first attribute of that type that iteration shows (value {}) reads as {}; attributes [{}]",
+                    kind,
+                    match &via_msg {
+                        Ok(t) => format!("{:?}", t.fields(tid)),
+                        Err(e) => err_name(e),
+                    },
+                    hex_short(&raw.value),
+                    match &direct {
+                        Ok(t) => format!("{:?}", t.fields(tid)),
+                        Err(e) => err_name(e),
+                    },
+                    show(&got)
+                );
+            }
+        }
+    }
     Ok(())
 }
 
@@ -292,7 +340,7 @@ pub fn check_bytes(bytes: &[u8], st: &mut Stats) -> TestResult {
                     Cause::NotStun => "cause: not STUN",
                     Cause::ShortBody { .. } => "cause: declared length beyond buffer",
                     Cause::Excess { .. } => "cause: excess bytes",
-                    Cause::AttrTruncated => "cause: attribute cut by end of body",
+                    Cause::AttrTruncated { .. } => "cause: attribute cut by end of body",
                     Cause::AfterIntegrity(_) => "cause: attribute after integrity",
                     Cause::AfterFingerprint(_) => "cause: attribute after fingerprint",
                     Cause::BadFingerprintLen => "cause: fingerprint length",
@@ -372,6 +420,17 @@ pub fn run(ctx: &Ctx) -> EvidenceMeta {
         fixed.push(Case::Bytes(Hex(vec![0xffu8; n])));
     }
     ctx.enumerate("corners", &fixed, test);
+    // every aligned message size up to 8 KiB (FINGERPRINT last, with and without integrity before it)
+    let mut sizes = vec![];
+    for body in (8u32..=8200).step_by(4) {
+        for (mi, sha256) in [(false, false), (true, false), (false, true)] {
+            if (mi || sha256) && body < 48 {
+                continue;
+            }
+            sizes.push(Case::Bytes(Hex(gen::sized_spec(body, gen::Seal { mi, sha256, fp: true }, (body / 4 % 4) as u8).ref_wire())));
+        }
+    }
+    ctx.enumerate("size-sweep", &sizes, test);
     ctx.proptest(
         "grammar",
         ctx.n(120_000, 4_000_000),
